@@ -44,6 +44,7 @@ func (srv *Srv) NewConn(c net.Conn) {
 }
 
 func (conn *Conn) close() {
+	verifPoint("close.begin", conn)
 	close(conn.done)
 	conn.Srv.Lock()
 	delete(conn.Srv.conns, conn)
@@ -62,6 +63,7 @@ func (conn *Conn) close() {
 			op.FidDestroy(fid)
 		}
 	}
+	verifPoint("close.end", conn)
 }
 
 func (conn *Conn) recv() {
@@ -109,6 +111,7 @@ func (conn *Conn) recv() {
 				return
 			}
 
+			verifPoint("recv.frame", conn, fc)
 			tag := fc.Tag
 			req := new(SrvReq)
 			select {
@@ -153,6 +156,7 @@ func (conn *Conn) recv() {
 				req.next.prev = req
 			}
 			conn.Unlock()
+			verifPoint("recv.enqueued", req, process)
 			if process {
 				// Tversion may change some attributes of the
 				// connection, so we block on it. Otherwise,
@@ -179,6 +183,7 @@ func (conn *Conn) send() {
 			return
 
 		case req := <-conn.reqout:
+			verifPoint("send.take", req)
 			SetTag(req.Rc, req.Tc.Tag)
 			conn.Lock()
 			conn.rsz += uint64(req.Rc.Size)
@@ -207,6 +212,7 @@ func (conn *Conn) send() {
 				buf = buf[n:]
 			}
 
+			verifPoint("send.write", req)
 			select {
 			case conn.rchan <- req.Rc:
 				break
